@@ -21,6 +21,12 @@ def handleAuth (j : Json) : Json :=
       | some c => c.2.2
       | none => []
     let l := AuthCache.mapLogin lc uc strip (getStr s "l")
+    if getBool s "fault" then
+      -- the back-end raises at this attempt
+      match AuthCache.loginFault cfg st now l (getStr s "pw") with
+      | (some r, st') => (st', now, obj [("user", jStr r.user), ("cached", Json.bool r.cached), ("consulted", Json.bool r.consulted)] :: outs)
+      | (none, st') => (st', now, obj [("fault", Json.bool true)] :: outs)
+    else
     let r := AuthCache.login cfg st now backend l (getStr s "pw")
     (r.state, now, obj [("user", jStr r.user), ("cached", Json.bool r.cached), ("consulted", Json.bool r.consulted)] :: outs)
   let (_, _, outs) := steps.foldl go (AuthCache.State.init, getNat j "t0", [])
